@@ -3,7 +3,7 @@
 // with the application policy "respond synchronously to every delivered request" (send() clears the
 // receiver); h_sim.cpp runs the same streams through the real http_server.
 //
-// case:  req <inst D|T> <strict 0|1> <cont s|v> <concat 0|1> <xlate 0|1> <maxcontent> <maxchunk> <frags>
+// case:  req <inst D|T> <strict 0|1> <container s|v> <concat 0|1> <xlate 0|1, +2: deferred expect-continue answer> <maxcontent> <maxchunk> <frags>
 //        rsp <inst D|T> <strict 0|1> <cont s|v> <maxbody> <maxchunk> <frags>
 // output: calls=<state><consumed>,...|...per fragment...  events=...;...  state=<digest>
 #include <string>
@@ -93,7 +93,7 @@ template <typename R> static size_t retained(R const& rx)
 }
 
 template <typename R>
-static std::string run_req(R& rx, std::vector<std::string> const& frags, bool concat)
+static std::string run_req(R& rx, std::vector<std::string> const& frags, bool concat, bool defer_continue)
 {
   std::string calls, events;
   size_t maxret = 0;
@@ -139,7 +139,8 @@ static std::string run_req(R& rx, std::vector<std::string> const& frags, bool co
         break;
       case Rx::EXPECT_CONTINUE:
         ev = "X(" + std::to_string(static_cast<int>(rx.response_code())) + ")";
-        rx.set_continue_sent();
+        // 's': the interim response is sent at once; 'd': the application's handler decides later
+        if (!defer_continue) rx.set_continue_sent();
         break;
       case Rx::CHUNK:
         ev = chunk_event(rx.chunk());
@@ -223,10 +224,12 @@ static std::string do_req(std::vector<std::string> const& a)
   R rx(static_cast<size_t>(std::stoull(a[5])), static_cast<size_t>(std::stoull(a[6])));
   bool concat = a[3] == "1";
   rx.set_concatenate_chunks(concat);
-  rx.set_translate_head(a[4] == "1");
+  // a[4]: bit 0 = HEAD translation, bit 1 = the application's expect-continue handler answers later
+  rx.set_translate_head(a[4] == "1" || a[4] == "3");
+  bool defer_continue = a[4] == "2" || a[4] == "3";
   std::vector<std::string> frags;
   for (auto const& f : hu::split(a[7], ',')) frags.push_back(hu::unhex(f));
-  return run_req(rx, frags, concat);
+  return run_req(rx, frags, concat, defer_continue);
 }
 
 template <typename R>
